@@ -1,21 +1,16 @@
 SPECIFICATION Spec
 CONSTANTS
-    IdOrder <- MCIds4
+    IdOrder <- MCIds3
     ValOrder <- MCVals
-    Payloads = {1, 2}
+    Payloads = {1}
     SegOrder <- MCSegs
     GlobTable <- MCGlob
     Grid <- MCGridSmall
+    TxGrid <- MCTxGridTiny
     JoinCollapse = FALSE
     NoLimitRaw = TRUE
     Faults = TRUE
+    MaxTxOps = 1
 INVARIANTS
-    TypeOK
-    GetIsLast
-    Bijection
     ListIsSlice
-PROPERTIES
-    FailedOpLeavesNoTrace
-    ReopenSame
-    CommitIsRef
 CHECK_DEADLOCK FALSE
